@@ -171,24 +171,29 @@ pub fn build<const N: usize>(g: &spec::G<N>, p: Pres) -> AAFramework<usize> {
 }
 
 /// Translates a returned extension into a bit-set over spec indices; `ok` is false if a member is not the caller's own
-/// argument object (same address, id and label as in the framework's argument set) or is listed twice.
+/// argument object (the very `Argument` stored in the framework's argument set, hence same id and label) or is listed
+/// twice.  Members are identified by address only: dereferencing the (symbolic) members would make every access a case
+/// split for CBMC, while the framework's own objects are concrete.
 pub fn ext_bits<const N: usize>(af: &AAFramework<usize>, p: Pres, ext: &[&Argument<usize>]) -> (u32, bool) {
+    let mut own: [*const Argument<usize>; N] = [std::ptr::null(); N];
+    for i in 0..N {
+        let o = af.argument_set().get_argument_by_id(id_of(p, i));
+        // the framework's own object carries the expected label (checked on concrete data)
+        if *o.label() != label_of(i) || o.id() != id_of(p, i) {
+            return (0, false);
+        }
+        own[i] = o as *const Argument<usize>;
+    }
     let mut bits = 0u32;
     let mut ok = true;
     for a in ext.iter() {
-        let mut idx = N; // spec index
+        let pa = *a as *const Argument<usize>;
+        let mut hit = 0u32;
         for i in 0..N {
-            if id_of(p, i) == a.id() {
-                idx = i;
-            }
+            hit |= ((pa == own[i]) as u32) << i;
         }
-        if idx == N {
-            ok = false;
-        } else {
-            let own = af.argument_set().get_argument_by_id(a.id());
-            ok = ok & std::ptr::eq(own, *a) & (*a.label() == label_of(idx)) & ((bits >> idx) & 1 == 0);
-            bits |= 1 << idx;
-        }
+        ok = ok & (hit != 0) & (bits & hit == 0);
+        bits |= hit;
     }
     (bits, ok)
 }
